@@ -32,3 +32,21 @@ Print Assumptions C08_no_peer_left.
 Theorem C08_peer_table_has_no_duplicates : forall evs, NoDup (peers (lrun evs)).
 Proof. exact peers_nodup. Qed.
 Print Assumptions C08_peer_table_has_no_duplicates.
+
+(* Transport::onReady with the write table: in every history the acceptor thread (which prepares the write
+   queue of a new connection before the worker registers it), the kernel and the peers can produce,
+   the worker never re-arms - or fails on - a descriptor it does not own, so no exception ends it ... *)
+Theorem C08_worker_never_touches_foreign_descriptor : forall h s, towrite_covers s ->
+  (forall pre e post, h = pre ++ e :: post -> wev_ok (fold_left (wstep true) pre s) e = true) ->
+  w_faults (fold_left (wstep true) h s) = w_faults s.
+Proof. exact wrun_guarded_never_faults. Qed.
+Print Assumptions C08_worker_never_touches_foreign_descriptor.
+
+(* ... whereas the dispatch without the peer-table guard (first version of fix 0d7aadf) is refuted by the
+   history of 5 events the thorough tier ran into: the peer closes, the acceptor reuses the descriptor
+   number between the two halves of one poll result *)
+Theorem C08_refuted_unguarded_writable_half :
+  w_faults (wrun false [WPrepare 7; WRegister 7; WIn 7 true; WPrepare 7; WOut 7 true]) = 1
+  /\ w_faults (wrun true [WPrepare 7; WRegister 7; WIn 7 true; WPrepare 7; WOut 7 true]) = 0.
+Proof. exact unguarded_faults. Qed.
+Print Assumptions C08_refuted_unguarded_writable_half.
